@@ -343,6 +343,13 @@ def r4(ctx):
                 fs = place_fields(s["place"])
                 if fs:
                     writes.add(fs[0])
+        salt = []
+        for bi_, i_, s_ in sb.stmts():
+            if s_["k"] == "assign" and place_fields(s_["place"]) and place_fields(s_["place"])[0] == f and s_["rv"]["k"] in ("use", "aggregate"):
+                for o_ in ([s_["rv"]["op"]] if s_["rv"]["k"] == "use" else s_["rv"]["ops"]):
+                    salt += transforms(sb, o_, allow=None)
+        if salt:
+            yield VIOL("C03-R4", "builder-setter/%s/as-is" % f, "GetSigningKeyRequestBuilder::%s alters the value it stores (through %s): the provider is asked for something other than what the request named" % (f, sorted({c_.split("::")[-1] for c_ in salt})), where=loc(sb.j["span"]))
         if writes != {f}:
             yield VIOL("C03-R4", "builder-setter/" + f, "GetSigningKeyRequestBuilder::%s writes field(s) %s" % (f, sorted(writes)), where=loc(sb.j["span"]))
         else:
